@@ -168,6 +168,10 @@ def rule_k2(ctx):
             for n_if in A.walk_local(fnl):
                 if isinstance(n_if, ast.If) and any(A.is_self_attr(x) and 'catch' in x.attr for x in ast.walk(n_if.test)):
                     t, neg = A.strip_not(n_if.test)
+                    if not (A.is_self_attr(t) and 'catch' in t.attr):
+                        # e.g. `is True`: narrower than "any selection configured"
+                        ok = False
+                        continue
                     raising = n_if.orelse if neg else n_if.body
                     fwd = n_if.body if neg else n_if.orelse
                     ok = any(isinstance(x, ast.Raise) for x in A.walk_stmts(raising)) and \
@@ -446,6 +450,12 @@ def rule_bl(ctx):
            '' if ok_app else 'every input element must be appended to the current batch exactly once')
     if appends:
         buf = appends[0].func.value.id
+        app_stmt = [s for s in loop.body if any(x is appends[0] for x in ast.walk(s))]
+        tests_ = [s for s in loop.body if isinstance(s, ast.If) and any(isinstance(x, ast.Yield) for x in A.walk_stmts(s.body + s.orelse))]
+        ok_ord = bool(app_stmt) and bool(tests_) and loop.body.index(app_stmt[0]) < loop.body.index(tests_[0])
+        rep.ob('BL', K.key(cls, '__iter__', 'append-precedes-the-fullness-test'), ok_ord, loop,
+               '' if ok_ord else 'the element must be appended before the batch is tested for being full: otherwise a full '
+               'batch is only emitted when the next element arrives, and with drop_last a full last batch is discarded')
     emit_ok = False
     reset_ok = False
     for n in A.walk_stmts(loop.body):
